@@ -209,6 +209,9 @@ func (u *upstream) MakeRequestToHost(addr string, req *simpleRequest) {
 
 	c, err := u.getClient(addr)
 	if err != nil {
+		// the node may have been replaced (failover): have a look at the layout,
+		// instead of failing every request until the periodic refresh.
+		u.triggerSlotsRefresh()
 		req.SetResponse(newError(err.Error()))
 		return
 	}
